@@ -125,11 +125,13 @@ class MATCHConv2d(nn.Conv2d, MATCHModule):
         if maybe_pad_dil:
             pad_dim = 0 if self.dilation[0] != 1 else 1
             with torch.no_grad():
-                padded_weights = self._pad_dilation_in_weight(self.dilation[0], self.kernel_size[0], pad_dim)
+                padded_weights = self._pad_dilation_in_weight(self.dilation[pad_dim],
+                                                              self.kernel_size[pad_dim],
+                                                              pad_dim)
                 self.weight.data = padded_weights
-            self.dilation = (1, 1)
             self.kernel_size = (self.kernel_size[0] * self.dilation[0] - (self.dilation[0] - 1),
                                 self.kernel_size[1] * self.dilation[1] - (self.dilation[1] - 1))
+            self.dilation = (1, 1)
 
     def forward(self, input: torch.Tensor) -> torch.Tensor:
         """The forward function of integer conv2d layer.
@@ -310,7 +312,7 @@ class MATCHConv2d(nn.Conv2d, MATCHModule):
             for c_in in range(self.in_channels):
                 for i in range(kernel_size):
                     if pad_dim == 0:
-                        padded_weights[c_out, c_in, i * dilation] = self.weight[c_out, c_in, i]
+                        padded_weights[c_out, c_in, i * dilation, 0] = self.weight[c_out, c_in, i, 0]
                     else:
-                        padded_weights[c_out, c_in, 0, i * dilation] = self.weight[c_out, c_in, i]
+                        padded_weights[c_out, c_in, 0, i * dilation] = self.weight[c_out, c_in, 0, i]
         return padded_weights
